@@ -296,6 +296,8 @@ def merge_private_helpers(F):
             g, h = F.fns[gn], F.fns[hn]
             if g.kind == "Closure" or not eligible_helper(F, h):
                 continue
+            if (h.rec.get("ret") or "").endswith("command::CommandStatus"):
+                continue        # a function that decides a command's status is a unit of its own (a handler, an admission step)
             if len(g.live_blocks()) + len(h.live_blocks()) * len(sites[(gn, hn)]) > 160:
                 continue
             if any(b in g.reach_after(b) for b in sites[(gn, hn)]):
